@@ -32,8 +32,8 @@ RULE = (
 TOLERANCES = {"everything": "bitwise / exact equality (OpenCV's RNG re-seeded before each colour-correction evaluation)"}
 ASSUMPTIONS = ["files are written to a per-run temporary directory that is removed afterwards", "lossless formats: PNG (8 bit) and TIFF (16 bit), as documented in OpticalImage.write"]
 FLOORS = {
-    "quick": {"files_read_in_given_order": 16, "write_with_compression_option": 15, "npz_roundtrip": 250, "bytes_roundtrip": 150, "optical_write_read": 60, "correction_roundtrip": 150, "estimator_regions_compared": 100, "correction_path_reused": 200, "caller_config_edited_after_construction": 40, "curvature_crop_points_typed": 6, "curvature_resize_factor": 20, "curvature_interpolation_order": 20, "optical_image_converted_before_saving": 2, "date_set_after_construction": 5},
-    "thorough": {"files_read_in_given_order": 160, "write_with_compression_option": 200, "npz_roundtrip": 3000, "bytes_roundtrip": 1800, "optical_write_read": 700, "correction_roundtrip": 1700, "estimator_regions_compared": 1000, "correction_path_reused": 2000, "caller_config_edited_after_construction": 400, "curvature_crop_points_typed": 60, "curvature_resize_factor": 200, "curvature_interpolation_order": 200, "optical_image_converted_before_saving": 50, "date_set_after_construction": 100},
+    "quick": {"files_16bit_read_as_list": 4, "files_read_in_given_order": 16, "write_with_compression_option": 15, "npz_roundtrip": 250, "bytes_roundtrip": 150, "optical_write_read": 60, "correction_roundtrip": 150, "estimator_regions_compared": 100, "correction_path_reused": 200, "caller_config_edited_after_construction": 40, "curvature_crop_points_typed": 6, "curvature_resize_factor": 20, "curvature_interpolation_order": 20, "optical_image_converted_before_saving": 2, "date_set_after_construction": 5},
+    "thorough": {"files_16bit_read_as_list": 40, "files_read_in_given_order": 160, "write_with_compression_option": 200, "npz_roundtrip": 3000, "bytes_roundtrip": 1800, "optical_write_read": 700, "correction_roundtrip": 1700, "estimator_regions_compared": 1000, "correction_path_reused": 2000, "caller_config_edited_after_construction": 400, "curvature_crop_points_typed": 60, "curvature_resize_factor": 200, "curvature_interpolation_order": 200, "optical_image_converted_before_saving": 50, "date_set_after_construction": 100},
 }
 SHARD_TIMEOUT = {"quick": 1500, "thorough": 7200}
 
@@ -201,11 +201,15 @@ def run_shard(spec, R):
         if not R.want(["write_list", n]):
             continue
         rng = rng_for(spec["seed"], "C18", 900 + spec["shard"], n)
+        kq = n + spec["shard"]  # rotates the variants over shards as well (few cases per shard in the quick tier)
         shape = (int(rng.integers(2, 20)), int(rng.integers(2, 20)))
         cnt = int(rng.integers(2, 5))
         start = int(rng.choice([8, 9, 98, 1]))
-        names = [[f"l{n}_frame_{start + k}.png" for k in range(cnt)], [f"l{n}_{'zyxw'[k]}_{k}.tif" for k in range(cnt)], [f"l{n}_f{k:03d}.png" for k in range(cnt)]][n % 3]
-        arrs = [rng.integers(0, 255, size=shape + (3,), endpoint=True).astype(np.uint8) for _ in range(cnt)]
+        names = [[f"l{n}_frame_{start + k}.png" for k in range(cnt)], [f"l{n}_{'zyxw'[k]}_{k}.tif" for k in range(cnt)], [f"l{n}_f{k:03d}.png" for k in range(cnt)]][kq % 3]
+        ldepth = [np.uint8, np.uint16][(kq // 3) % 2]  # 8-bit and 16-bit files
+        arrs = [rng.integers(0, np.iinfo(ldepth).max, size=shape + (3,), endpoint=True).astype(ldepth) for _ in range(cnt)]
+        if ldepth == np.uint16:
+            R.count("files_16bit_read_as_list")
         paths = [tmp / nm for nm in names]
         okw = True
         for a_, p_ in zip(arrs, paths):
@@ -215,7 +219,7 @@ def run_shard(spec, R):
         if not okw:
             continue
         times = [float(10 * k) for k in range(cnt)]
-        as_str = bool(n % 2)
+        as_str = bool(kq % 2)
         with quiet():
             ok, ser = R.guarded("imread_optical", lambda: darsia.imread([str(p_) for p_ in paths] if as_str else list(paths), time=list(times), dimensions=[1.0, 2.0]))
         if ok:
@@ -226,7 +230,7 @@ def run_shard(spec, R):
                     fr = ser.time_slice(k).img
                     found.append([j for j in range(cnt) if np.array_equal(fr, skimage.img_as_float(arrs[j]))])
                 good = all(f == [k] for k, f in enumerate(found))
-            R.check(good, "files_read_in_given_order", lambda: {"names": names, "paths_as_str": as_str, "slice_k_holds_file": found}, group=["running_numbers", "reverse_alphabetical", "zero_padded"][n % 3])
+            R.check(good, "files_read_in_given_order", lambda: {"names": names, "depth": np.dtype(ldepth).name, "paths_as_str": as_str, "slice_k_holds_file": found}, group=["running_numbers", "reverse_alphabetical", "zero_padded"][kq % 3])
         for p_ in paths:
             if p_.exists():
                 os.remove(p_)
